@@ -24,9 +24,12 @@ from concurrent.futures import ThreadPoolExecutor
 VERIF = os.path.dirname(os.path.dirname(os.path.abspath(__file__)))
 REPO = os.environ.get("VERIF_REPO", "/repo")
 COQ = os.path.join(VERIF, "coq")
-WORK = os.path.join(VERIF, "work")
-REPLAYS = os.path.join(VERIF, "replays")
-EVIDENCE = os.path.join(VERIF, "evidence")
+# VERIF_SCRATCH (with VERIF_REPO) lets tools/try_seed_wt.sh judge a patched scratch worktree without touching /repo,
+# /verif/work, /verif/replays or the evidence files; the registered checks never set it
+_SCRATCH = os.environ.get("VERIF_SCRATCH")
+WORK = os.path.join(_SCRATCH or VERIF, "work")
+REPLAYS = os.path.join(_SCRATCH or VERIF, "replays")
+EVIDENCE = os.path.join(_SCRATCH or VERIF, "evidence")
 TEST_NAME = "tests::verif_harness::verif_entry"
 
 sys.path.insert(0, os.path.dirname(os.path.abspath(__file__)))
